@@ -413,7 +413,7 @@ func refUnwind(a []any, depth int) []any {
 }
 
 // selEqual compares an implementation value with a reference value; pipeString leaves are checked
-// by law: integer-valued number (inside the int64 range) -> its decimal integer text; other number -> any text that parses
+// by law: integer-valued number (inside the int64 range) -> an integer numeral that reads back as the number (below 2^53: its decimal integer text); other number -> any text that parses
 // back to the same number; string -> itself; NULL/bool/other -> any string.
 func selEqual(got, want any) bool {
 	switch w := want.(type) {
@@ -425,7 +425,21 @@ func selEqual(got, want any) bool {
 		switch o := w.of.(type) {
 		case float64:
 			if o == math.Trunc(o) && o > -(1<<63) && o < (1<<63) {
-				return s == strconv.FormatInt(int64(o), 10)
+				// an integer numeral (no fraction, no exponent) that reads back as the same number:
+				// below 2^53 that is the one decimal text of the number; beyond, a double has several
+				// (2^60 is 1152921504606846976 and, in its shortest digits, 1152921504606847000)
+				if s == strconv.FormatInt(int64(o), 10) {
+					return true
+				}
+				if math.Abs(o) < (1 << 53) {
+					return false
+				}
+				digits := strings.TrimPrefix(s, "-")
+				if digits == "" || strings.Trim(digits, "0123456789") != "" {
+					return false
+				}
+				f, err := strconv.ParseFloat(s, 64)
+				return err == nil && f == o
 			}
 			f, err := strconv.ParseFloat(s, 64)
 			return err == nil && (f == o || fmt.Sprintf("%f", o) == s)
